@@ -1046,8 +1046,11 @@ def fam_c07():
             if "l" not in ks and "%" not in ops:
                 continue
             e = PV(1, cvals[ks[0]])
+            lvl = {"==": 4, "+": 5, "-": 5, "*": 6, "%": 6}
             for q, op in enumerate(ops):
                 e = Bin(op, e, PV(q + 2, cvals[ks[q + 1]]))
+                if q > 0 and lvl[ops[q - 1]] >= lvl[op]:
+                    e["np"] = True          # written without parentheses: a + b + c, a % b + c, a + b == c
             nm = "chainfail-%s-%s" % ("".join({"+": "a", "-": "s", "*": "m", "%": "r", "==": "e"}[o] for o in ops), "".join(ks))
             n9 += 1
             if len(ops) == 3 and n9 % 5:
